@@ -60,6 +60,7 @@ ASSUMPTIONS = {
             "payloads range over the shape grammar G of DESIGN 5.C09 (Encrypt.v type v); IgnoreTypes, structpb.Struct payloads, struct payloads passed by value, "
             "named string types (json.Number, type T string) are not among the kinds the filter supports: it leaves them alone, also under a class tag; the model carries them as non-string values that must be preserved", "struct payloads passed by value are compared with the model (and snapshot-checked for C10) but are outside no_leak (their own strings cannot be set); []*string, arrays, strings held in interface{} fields / []interface{} elements, a payload behind a pointer to an interface, pointer tags that go through anything but maps are outside G (array, []interface{} and *interface{} payloads are run with the input-side oracles only; a payload that is a slice of slices is inside: the filter leaves the inner slices alone and the model says so); a Taggable map DIRECTLY as a value of an untagged map is swept as an untagged map (modelled; its tags are not honoured); Filter.IgnoreTypes is outside the model: where the rule applies only the input-side oracles are evaluated",
             "with every operation overridden to none Process returns the event untouched before looking at the payload kind, so a rotation payload is then forwarded (C10's clause wins over C09's)",
+            "F19 (repair: patches/encrypt/0010): on a tree that does not filter a struct held by value in a []interface{} that is a map value, the cases with such an element are outside the model (the driver probes the tree once; input-side oracles and the container-type comparison only; counted in the evidence as outside-the-model:struct-by-value-in-interface-slice); once the tree filters them they run under the full model",
             "F18 (repair: patches/encrypt/0009): on a tree where a nil element of a []interface{} held by a map still makes Process panic, the cases containing such an element are held back (the driver probes the tree once; counted in the evidence as held-back:nil-element-F18)",
             "a wrapper that answers (nil, nil) or an empty BlobInfo is no failing wrapper (the filter then writes the bare text 'encrypted:'): outside the statements; failing wrappers return every kind of error value (plain, wrapped sentinels, custom type, joined, typed nil, shared) and fail KeyId; a dead context makes the failing wrapper fail every call, the calls so answered are the model's failure oracle"],
     "C10": ["'the original is untouched' is not expressible in the heap-free model: it is tied dynamically on every case - deep snapshot of the input event before / after Process (KMutated), and again after the forwarded event has been rewritten from top to bottom, Formatted included (KAliased: the copy shares nothing with the original) - partial",
